@@ -181,7 +181,12 @@ type JDeep struct {
 	MMp  map[Name]Dict `serix:",lenPrefix=uint8"`
 	MSt  map[Name]Poly `serix:",lenPrefix=uint8"`
 	OptZ *Rect         `serix:",omitempty"`
+	Tg   Tag3          `serix:""`
 }
+
+// Tag3: a string whose minimum length (3 bytes) is above one, so that a value of multi-byte characters can meet the
+// bound in bytes with fewer characters than that.
+type Tag3 string
 
 type Trio struct {
 	Arr [3]uint16 `serix:",lenPrefix=uint8"`
@@ -385,7 +390,7 @@ var (
 	nIdent = st("Ident", -1, 0, f("ID", nID4), opt("PID", ptr(nID4)))
 	nMixed = st("Mixed", -1, 0, f("S", sl(nU16, 1, 0, 4)), f("M", mp(nU16, nU16, 1, 0, 4)), f("P", str(1, 0, 0)), f("Q", str(2, 0, 0)))
 	nJDeep = st("JDeep", -1, 0, f("MSl", mp(nName, sl(nU16, 1, 0, 0), 1, 0, 0)), f("MMp", mp(nName, nDict, 1, 0, 0)),
-		f("MSt", mp(nName, nPoly, 1, 0, 0)), f("OptZ", ptr(nRect)))
+		f("MSt", mp(nName, nPoly, 1, 0, 0)), f("OptZ", ptr(nRect)), f("Tg", str(1, 3, 9)))
 	nTrio = st("Trio", -1, 0, f("Arr", &node{kind: kArray, name: "array", n: 3, elem: nU16, prefix: 1, code: -1}))
 
 	nCustom = &node{kind: kCustom, name: "Custom", code: 0x33, codeW: 1}
@@ -487,6 +492,7 @@ func newAPI() *serix.API {
 	must(a.RegisterTypeSettings(SharedSlice{}, sharedBase))
 	must(a.RegisterTypeSettings(SharedMap{}, sharedBase))
 	must(a.RegisterTypeSettings(PName(""), ts.WithLengthPrefixType(serix.LengthPrefixTypeAsUint16)))
+	must(a.RegisterTypeSettings(Tag3(""), ts.WithLengthPrefixType(serix.LengthPrefixTypeAsByte).WithMinLen(3).WithMaxLen(9)))
 	must(a.RegisterTypeSettings(JMaps{}, ts.WithObjectType(uint8(0x21))))
 	must(a.RegisterTypeSettings(Custom{}, ts.WithObjectType(uint8(0x33))))
 	must(a.RegisterTypeSettings(Root{}, ts.WithObjectType(uint8(0x7F))))
